@@ -53,7 +53,7 @@ def describe(tier):
             "Converse direction, exhaustive within the bound: payload length 0..%d x 5 byte classes + every single byte value at the first and last "
             "position of a 24-byte payload; bare base64 (encoded with an own encoder) x 4 embeddings at scan level, expected: exactly one "
             "encoding.base64 node covering exactly the blob with the payload as value whenever the documented acceptance rules hold (own predicate); "
-            "long payloads (up to 3000 bytes) that start with a monotonous sled so that the characters which satisfy the rules appear only late; boundary blobs on both sides of every rule (20/24 characters, 6/7 distinct characters, pure hex, pure letters, slash share 3/32 +- one "
+            "base64 wrapped into 5..10000 lines (boundary ladder) of width 4 and 76 with 4 line-break spellings; long payloads (up to 3000 bytes) that start with a monotonous sled so that the characters which satisfy the rules appear only late; boundary blobs on both sides of every rule (20/24 characters, 6/7 distinct characters, pure hex, pure letters, slash share 3/32 +- one "
             "character); every assignment of %d line-break spellings to the %d gaps of a 7-group blob; 6 call forms x every payload length; hex runs of "
             "9/10/11/16 pairs x lower/upper/mixed x digit-only prefixes of 0..24 characters x embeddings; FromHexString call forms (plain, [System.Convert]:: prefix, lower case); PowerShell byte arrays of 499..640 elements x 5 element spellings (decimal, 0x hex, 0X HEX, zero-padded, mixed) x 4 separators x 3 embeddings. "
             "Forward direction: every node labelled encoding.base64 / decoded.hexadecimal / encoding.hexidecimal / cipher.xor* / cipher.multibyte_xor "
@@ -73,7 +73,7 @@ def plan(tier, seed):
     maxlen = 40 if tier == "quick" else 64
     units = [("bare", tier, n) for n in range(0, maxlen + 1)]
     units += [("bytepos", v0) for v0 in range(0, 256, 16)]
-    units += [("bounds",), ("late",)]
+    units += [("bounds",), ("late",)] + [("lines", i) for i in range(4)]
     units += [("breaks", i) for i in range(len(BREAKS))]
     units += [("calls", tier, ci) for ci in range(len(CALLS))]
     units += [("hex", case) for case in ("lower", "upper", "mixed")]
@@ -233,6 +233,34 @@ def run_unit(unit, rec):
                 exp = ("encoding.base64", "", len(pre), len(pre) + len(b64), payload) if ok else None
                 scan_and_check(rec, data, {"kind": "bare", "data": data, "blob": [len(pre), len(pre) + len(b64)], "payload": payload or b""}, exp)
         rec.sample({"family": "acceptance-boundaries", "blobs": len(blobs)})
+    elif kind == "lines":
+        # wrapped base64: number of lines from the boundary ladder x line width x line-break spelling; one unit, exactly the blob
+        eol = [b"\n", b"\r\n", b"&#13;&#10;", b"&#xD;&#xA;\r\n"][unit[1]]
+        for width in (4, 76):
+            for nlines in core.ladder(5, 5000 if width == 76 else 10000):
+                per = width // 4 * 3
+                payload = bytes((i * 131 + 7) % 251 for i in range(per * nlines - 1))
+                b64 = b64enc(payload)
+                if not codec_ref.b64_accepts(b64):
+                    continue  # below the documented minimum (22 characters)
+                lines = [b64[i : i + width] for i in range(0, len(b64), width)]
+                blob = eol.join(lines)
+                data = b"b64: " + blob + b" ."
+                rec.mark("states", data[:64] + b"%d" % nlines, True)
+                rec.count("evaluations")
+                w = {"kind": "lines", "eol": eol, "width": width, "nlines": nlines}
+                ok, hits = rec.guard("C13.total", w, nlines, mdb64.find_base64, data, limit=60)
+                if not ok:
+                    continue
+                rec.count("traces")
+                rec.count("transitions", len(hits))
+                rec.mark("nontrivial", 0, True)
+                got = [(h.start, h.end) for h in hits]
+                if got != [(5, 5 + len(blob))] or hits[0].value != payload:
+                    cause = "split" if len(got) > 1 else ("not-found" if not got else ("span" if got[0] != (5, 5 + len(blob)) else "value"))
+                    rec.violation("C13.converse", f"encoding.base64|many-lines|{cause}", w,
+                                  f"base64 wrapped into {len(lines)} lines of {width} characters (break {eol!r}) is not decoded as one unit over [5,{5 + len(blob)}): {core.short(got, 160)}", nlines)
+        rec.sample({"family": "wrapped-lines", "eol": eol, "line_counts": core.ladder(5, 5000)[-6:]})
     elif kind == "late":
         # acceptance rules are properties of the WHOLE blob: long payloads whose first part is monotonous (sled / padding) and whose
         # distinguishing characters only appear late
@@ -424,6 +452,8 @@ def replay(w, rec):
             a, b = w["blob"]
             exp = ("encoding.hexidecimal", "powershell.bytes", a, b, bytes.fromhex(data[a + w.get("head", 15) : b - 2].decode()))
         scan_and_check(rec, data, w, exp)
+    elif k == "lines":
+        run_unit(("lines", [b"\n", b"\r\n", b"&#13;&#10;", b"&#xD;&#xA;\r\n"].index(w["eol"])), rec)
     elif k == "breaks":
         data = w["data"]
         a, b = w["blob"]
